@@ -39,7 +39,7 @@ def norm(s):
     return " ".join(s.replace("\u00a0", " ").split())
 
 
-WORDS = ["I'd", "o'clock", "'em", "the", "'90s", "'cause", "alpha", "beta", "R&D", "x<y", "a>b", "\"q\"", "it's", "&amp;", "&lt;", "<i>", "5", "ok.", "émigré", "—", "100%", "a;b", "#1",
+WORDS = ["NOTE", "STYLE", "I'd", "o'clock", "'em", "the", "'90s", "'cause", "alpha", "beta", "R&D", "x<y", "a>b", "\"q\"", "it's", "&amp;", "&lt;", "<i>", "5", "ok.", "émigré", "—", "100%", "a;b", "#1",
          "&apos;", "&quot;", "&nbsp;", "&#39;", "&#x27;", "&copy;", "&amp;lt;", "&gt", "AT&T;"]
 
 
